@@ -106,4 +106,29 @@ theorem runPure2_enter (b : Bytes) (P : List PosDesc) (hP : iterPositionsSt b = 
       simp only [List.getElem?_cons_succ] at h
       cases jx <;> simp only [runPure2, List.getElem?_cons_succ] <;> exact ih _ _ m j h
 
+theorem runObjN_project (k : Bytes → RState → RState) (files : Nat → Bytes) (i : Nat) :
+    ∀ (ops : List (Nat × Op)) (sts : Nat → IdxSt),
+      outsOf i (runObjN k files sts ops) = runPure1 (files i) ((sts i).entries, (sts i).entered) (opsOf i ops) := by
+  intro ops
+  induction ops with
+  | nil => intro sts; rfl
+  | cons x xs ih =>
+    intro sts
+    obtain ⟨j, op⟩ := x
+    by_cases hj : j = i
+    · subst hj
+      have h := stepObj_pure k (files j) (sts j) op
+      simp only [runObjN, outsOf, opsOf, List.filterMap_cons, if_true, runPure1]
+      rw [h.1]
+      congr 1
+      have := ih (updAt sts j (stepObj k (files j) (sts j) op).2)
+      simp only [outsOf, opsOf, updAt, if_true] at this
+      rw [this, ← h.2]
+    · simp only [runObjN, outsOf, opsOf, List.filterMap_cons, hj, if_false]
+      have := ih (updAt sts j (stepObj k (files j) (sts j) op).2)
+      simp only [outsOf, opsOf, updAt] at this
+      rw [this]
+      have hij : ¬ i = j := fun h => hj h.symm
+      simp [hij]
+
 end TD.C02
